@@ -126,7 +126,9 @@ func c09Step(g *Rng) Step {
 	addr := func() []byte {
 		return [][]byte{nil, {}, {10, 0, 0, 2}, {1, 2, 3}, net.ParseIP("::1"), g.Bytes(g.Intn(20))}[g.Intn(6)]
 	}
-	lt := []uint64{0, 1, 2, 5, 1 << 32, 1 << 63, ^uint64(0) - 40}[g.Intn(7)]
+	// (the largest 64-bit time makes the clock that witnesses it wrap round; whatever one thinks
+	// of that, the node must go on serving)
+	lt := []uint64{0, 1, 2, 5, 1 << 32, 1 << 63, ^uint64(0) - 40, ^uint64(0)}[g.Intn(8)]
 	switch x := g.Intn(20); {
 	case x < 5:
 		q := &wQuery{LTime: lt, ID: uint32(g.Intn(5)), Addr: addr(), Port: uint16(g.Pick(0, 7946, 65535)), SourceNode: []string{"", "n1", "zz"}[g.Intn(3)],
